@@ -62,10 +62,11 @@ type cell struct {
 	nchunks, size   int
 	event           string // none | pause | stall | abort
 	point           int    // gate index (0 = after headers, i = before chunk i)
+	keepAlive       bool   // the backend keeps its connection open for further requests (no "Connection: close")
 }
 
 func (c cell) String() string {
-	return fmt.Sprintf("engine=%s profile=%s route=%s type=%s chunks=%dx%dB event=%s@%d", c.engine, c.profile, c.rt.name, c.ct.name, c.nchunks, c.size, c.event, c.point)
+	return fmt.Sprintf("engine=%s profile=%s route=%s type=%s chunks=%dx%dB event=%s@%d keepalive=%v", c.engine, c.profile, c.rt.name, c.ct.name, c.nchunks, c.size, c.event, c.point, c.keepAlive)
 }
 
 func (c cell) livePromised() bool {
@@ -159,7 +160,9 @@ func runConfig(engine, profile string, rt route, cells []cell) {
 		s.Close()
 		res.SetAdd("distinct_nontrivial", fmt.Sprintf("%s|%s|%s|abort-before-headers|%v", engine, profile, rt.name, arrived))
 	}
-	// leak clause: everything this configuration started must be gone after a settle period
+	// leak clause: everything this configuration started must be gone after a settle period (kept-alive connections that
+	// wait for a next request are closed by the backend first: they are the transport's idle pool, not a leak)
+	be.CloseIdle()
 	ok := stack.Eventually(10*time.Second, func() bool { return runtime.NumGoroutine() <= baseline+3 && be.OpenConns() == 0 })
 	if !ok {
 		violate("goroutines-or-connections-leaked", map[string]any{"engine": engine},
@@ -242,7 +245,7 @@ func runCell(o *stack.Olla, be *stack.Backend, c cell) {
 		return true
 	}
 	be.Reset()
-	be.SetFixed(stack.Behaviour{Kind: "respond", Status: 200, Framing: "chunked", Steps: steps, Gate: gate, Cut: -1, After: "complete", Headers: [][2]string{{"Content-Type", ct}}})
+	be.SetFixed(stack.Behaviour{Kind: "respond", Status: 200, Framing: "chunked", Steps: steps, Gate: gate, Cut: -1, After: "complete", KeepAlive: c.keepAlive, Headers: [][2]string{{"Content-Type", ct}}})
 	stream := c.rt.translated || c.ct.live
 	body := fmt.Sprintf(`{"model":"m1","max_tokens":16,"stream":%v,"messages":[{"role":"user","content":"hi"}]}`, stream)
 	var err error
@@ -254,7 +257,7 @@ func runCell(o *stack.Olla, be *stack.Backend, c cell) {
 	close(ready)
 	rp := map[string]any{"engine": "stack", "cell": c.String()}
 	wit := func(extra map[string]any) map[string]any {
-		w := map[string]any{"engine": c.engine, "event": c.event}
+		w := map[string]any{"engine": c.engine, "event": c.event, "keepalive": c.keepAlive}
 		for k, v := range extra {
 			w[k] = v
 		}
@@ -342,18 +345,23 @@ func main() {
 				for _, ct := range cts {
 					for n := 1; n <= maxChunks; n++ {
 						for _, sz := range sizes {
-							base := cell{engine: engine, profile: profile, rt: rt, ct: ct, nchunks: n, size: sz}
-							c := base
-							c.event, c.point = "none", -1
-							cells = append(cells, c)
-							for p := 0; p <= n-1; p++ {
-								if sz != sizes[0] && p > 0 {
+							for _, ka := range []bool{false, true} {
+								if ka && sz != sizes[0] && !report.Thorough() {
 									continue
 								}
-								for _, evn := range []string{"pause", "stall", "abort"} {
-									c := base
-									c.event, c.point = evn, p
-									cells = append(cells, c)
+								base := cell{engine: engine, profile: profile, rt: rt, ct: ct, nchunks: n, size: sz, keepAlive: ka}
+								c := base
+								c.event, c.point = "none", -1
+								cells = append(cells, c)
+								for p := 0; p <= n-1; p++ {
+									if sz != sizes[0] && p > 0 {
+										continue
+									}
+									for _, evn := range []string{"pause", "stall", "abort"} {
+										c := base
+										c.event, c.point = evn, p
+										cells = append(cells, c)
+									}
 								}
 							}
 						}
@@ -364,7 +372,8 @@ func main() {
 		}
 	}
 	res.Info["grid"] = map[string]any{"engines": []string{"sherpa", "olla"}, "profiles": []string{"auto", "streaming", "standard"}, "routes": []string{"proxy", "provider", "anthropic-passthrough", "anthropic-translation"},
-		"content_types": []string{"sse", "ndjson", "json", "octet-stream"}, "chunks": fmt.Sprintf("1..%d x sizes %v", maxChunks, sizes), "events": "none | pause(+29 s) | stall(+31 s) | client abort, after headers and between chunks"}
+		"content_types": []string{"sse", "ndjson", "json", "octet-stream"}, "chunks": fmt.Sprintf("1..%d x sizes %v", maxChunks, sizes), "events": "none | pause(+29 s) | stall(+31 s) | client abort, after headers and between chunks",
+		"backend_connection": "Connection: close | kept alive (quick: kept alive for the smallest chunk size only)"}
 	res.Info["rule"] = "one evaluation = one streamed exchange in one grid cell; non-trivial/distinct = distinct cells (every cell streams at least one gated chunk)"
 	res.Assume("time in the engines' streaming loops is owned through the jump clock; a real-time horizon of 3-8 s only bounds how long the harness waits for something that takes milliseconds",
 		"'visible before the next is sent' is observable at hand-shake granularity", "a leak slower than the 3 s settle period is missed", "a stall before the response headers is governed by the response timeout, not the read timeout, and is not part of the grid")
